@@ -938,7 +938,7 @@ def apply_pass(circ, p, state):
     elif p[0] == "merge": circ.merge_single_qubit_gates()
     elif p[0] == "replace":
         if p[1] == "CNOT": circ.replace(dg.CNOT, lambda a, b: [dg.H(b), dg.CZ(a, b), dg.H(b)])
-        else: circ.replace(dg.CZ, lambda a, b: [dg.H(b), dg.CNOT(a, b), dg.H(b)])
+        else: circ.replace(dg.CZ, lambda a, b: [dg.H(q=b), dg.CNOT(target=b, control=a), dg.H(b)])      # keyword arguments, not in signature order
     elif p[0] == "map":
         from opensquirrel.mapper import HardcodedMapper
         from opensquirrel.mapper.mapping import Mapping
